@@ -109,6 +109,12 @@ def check(index, ctx):
                     elif "retain_graph" in org and "loop-index" in org and len(es) == 1:
                         ctx.violated("R1", k, f"retain_graph={e['retain_graph']} (origin {org}) depends on the position in a loop although this graph is differentiated once: "
                                      "with retain_graph=False some of these graphs are retained (silent memory leak)", e["loc"])
+                    elif "retain_graph" in org and len(es) == 1:
+                        # this graph is differentiated once: the sweep must carry the caller's flag itself — combined with anything else
+                        # (`retain_graph or len(features) > 1`) it keeps the graph in situations the caller did not ask for
+                        others_ = sorted(set(org) - {"retain_graph"})
+                        ctx.violated("R1", k, f"retain_graph={e['retain_graph']} is computed from the caller's flag AND {others_}: this graph is differentiated once, so whenever that expression is "
+                                     "true although the caller passed retain_graph=False the graph is never freed (a follow-up differentiation succeeds where torch.autograd raises; memory is kept)", e["loc"])
                     elif "retain_graph" in org:
                         # e.g. `flag if <last block> else True`: ask the runs with concrete sizes which value each sweep receives
                         st_, text_, der_ = _inst.verdict(index, run.entry, "retain", chunk=bool(run.variant.get("chunk")))
